@@ -12,6 +12,11 @@ Obligations (all generated from the real source on every run):
 (c) NUMBERING discipline of every image counter (AST path counting);
 (d) BYTES DATAFLOW from the container read to the image object, content type from the extension table;
 (e) VIEWS COINCIDE in data_types.py (symbolic lists of symbolic lists, invariants over the yielded prefix).
+
+Round 5: the content-type claim includes the body of the module's content-type helper (`_ct_helper_body`); a key expression of a pure shape
+outside EXT_SHAPES is executed on EXT_CORPUS (bounded stand-in); helpers are read after normalisation (dict literal / `**kwargs` / parameter
+copies); `[*a, *b]` over sequence-valued lists is a concatenation (c14_exec); os.path string functions are total (c14_sites.TOTAL_CALLS);
+the replayer writes media part names with lower / UPPER / Capitalised extensions and builds units with text, blank text and no text.
 """
 import ast
 import os
